@@ -36,7 +36,7 @@ def plan_batch(rnd, size, napps, base):
     for k in range(size):
         rid = base + k
         r = rnd.random()
-        kind = 'ok' if r < 0.8 else rnd.choice(['unknown', 'missing', 'badenc'])
+        kind = 'ok' if r < 0.75 else rnd.choice(['unknown', 'missing', 'badenc', 'poison'])
         batch.append((rid, f'app{rnd.randint(1, napps)}' if kind != 'unknown' else 'nope', kind, rnd.choice([0, 0, 1, 3, 7, 15, 30])))
     rnd.shuffle(batch)
     return batch
@@ -49,6 +49,9 @@ def make_request(rid, kind, delay):
         return layout.Request(f'rid\n{rid}\n'.encode(), csv, {}, [csv])
     if kind == 'badenc':
         return layout.Request(f'rid,delay\n{rid},{delay}\n'.encode(), layout.Encoding('foo/bar'), {}, [csv])
+    if kind == 'poison':    # a well-formed request the model refuses with a forml error half-way through the pipeline
+        from harness import serving
+        delay = serving.POISON
     return layout.Request(f'rid,delay\n{rid},{delay}\n'.encode(), csv, {}, [csv])
 
 
@@ -94,9 +97,9 @@ def judge(rid, app, kind, answer, directory):
     if isinstance(answer, BaseException):
         return f'valid request {rid} to {app} failed: {answer!r}'[:300]
     gen = int(app[3:])
-    want = f'c0,c1\n{rid},{gen}\n'.encode()
+    want = f'c0,c1,c2,c3\n{rid},{rid},{gen},{rid}\n'.encode()
     if bytes(answer.payload.data) != want:
-        return f'request {rid} to {app} received {bytes(answer.payload.data)!r} instead of {want!r} (own id, stamp of generation {gen})'
+        return f'request {rid} to {app} received {bytes(answer.payload.data)!r} instead of {want!r} (own id from every branch, stamp of generation {gen})'
     if not str(answer.instance).endswith(f'-{serving.PROJECT}-{serving.RELEASE}-{gen}'):
         return f'request {rid} to {app} reports instance {answer.instance}'
     return None
@@ -215,6 +218,8 @@ def main(chk):
     chk.validated(good)
     chk.extra['hook_traces'] = {'runs': len(runs), 'accepted': good, 'events': sum(verdicts[i][2] for i in range(1, len(runs) + 1))}
     shutil.rmtree(work, ignore_errors=True)
+    chk.assume('besides the three listed platform errors a request refused by a pipeline actor with a forml error (poison) is injected; '
+               'it must fail alone like them')
     chk.assume('requests failing with non-platform exceptions (which stop the pool by design) are outside the premise and not injected')
     chk.assume('real parallel timing is sampled (seeded delays and arrival orders); the exhaustive interleaving claim is about Serving.tla')
 
